@@ -54,6 +54,21 @@ CHECKS = {
                      "Concurrent: every multiset of 2-3 thread scripts copying/moving/dropping private handles to one shared object, every interleaving "
                      "within the preemption bound, ASan build (use-after-free, assert in ~ReferenceCounter, destroyed exactly once) and TSan build (payload races).",
                 note="SC interleavings; preemption bound 2-3 (2 threads) / 1-2 (3 threads); handle variables themselves are thread-private as documented"),
+    "C10": dict(engine="vsched", technique=E1, design="4/C10",
+                text="Job-graph scenarios (independent jobs, job->child->grandchild, second enqueuing thread, job calling terminate(), terminate()/destruction "
+                     "with queued jobs, two external waiters, pool reuse) for pool sizes 1..3: every interleaving of workers, enqueuers and waiters within the "
+                     "bound (preemption bound 1-3 quick / 2-4 thorough for 1-2 workers; delay bound 2 / 3 where 3 workers or 4+ threads make free switches explode) "
+                     "and every notify_one target, on the real ThreadPool: per-job counters (exactly once), queue empty and busy==0 at the instant "
+                     "loop_until_empty returns, done() count, no deadlock / lost wake-up (no runnable thread = deadlock), ASan build + TSan build (visibility of "
+                     "plain job results to the waiter, no race).",
+                note="SC interleavings only; bounded preemptions/delays; exceptions escaping jobs and thread-creation failure not modelled"),
+    "C11": dict(engine="vsched", technique=E1, design="4/C11",
+                text="Semaphore: every multiset of per-thread call scripts over {signal(), signal(n), wait(d,s), try_acquire(d,s)} (2-4 threads, 1-2 calls each, "
+                     "bounded total, initial value 0/1) under every interleaving within the preemption bound and every notify target: linearised call log replayed "
+                     "against a counter model (conservation, wait returns only with value >= delta+slack, return values), and at every quiescent state no blocked "
+                     "waiter may be covered by the value (stranded waiter). Barriers (Mutex/Spin x wait/wait_yield): n=1..4 threads x 1..3 generations, ghost "
+                     "counters: nobody leaves generation g before all entered, action exactly once, by the last arriver, before any release; reuse.",
+                note="SC interleavings only; no spurious wake-ups; preemption bound 1 (quick) / 2-3 (thorough); TSan is not an oracle here (no race claim in C11)"),
 }
 
 NA = {}
